@@ -211,5 +211,6 @@ func (d *Document) isWholeDocument(r *lsp.Range) bool {
 		return false
 	}
 	l, c := d.Len()
-	return r.End.Line == uint32(l) || r.End.Character == uint32(c)
+	// The range covers the whole document only if it ends at, or beyond, the end of the last line.
+	return r.End.Line >= uint32(l) || (r.End.Line == uint32(l-1) && r.End.Character >= uint32(c))
 }
